@@ -81,6 +81,8 @@ pub struct Pending {
     pub ord: MemOrd,
     pub ord_fail: MemOrd,
     pub peek: fn(usize) -> u64,
+    /// cells whose change would wake this operation (the other cells of a load-only spin loop); 0 = unused
+    pub watch: [usize; 8],
 }
 
 fn no_peek(_: usize) -> u64 {
@@ -89,10 +91,10 @@ fn no_peek(_: usize) -> u64 {
 
 impl Pending {
     fn pseudo(kind: PKind) -> Pending {
-        Pending { kind, addr: 0, expected: 0, operand: 0, ord: MemOrd::Relaxed, ord_fail: MemOrd::Relaxed, peek: no_peek }
+        Pending { kind, addr: 0, expected: 0, operand: 0, ord: MemOrd::Relaxed, ord_fail: MemOrd::Relaxed, peek: no_peek, watch: [0; 8] }
     }
     fn from_op(op: &Op) -> Pending {
-        Pending { kind: PKind::Sync(op.kind), addr: op.addr, expected: op.expected, operand: op.operand, ord: op.ord, ord_fail: op.ord_fail, peek: op.peek }
+        Pending { kind: PKind::Sync(op.kind), addr: op.addr, expected: op.expected, operand: op.operand, ord: op.ord, ord_fail: op.ord_fail, peek: op.peek, watch: [0; 8] }
     }
     fn is_lock_op(&self) -> bool {
         matches!(
@@ -125,7 +127,9 @@ pub fn independent(a: &Pending, b: &Pending) -> bool {
         (Sync(OpKind::Fence), _) | (_, Sync(OpKind::Fence)) => false,
         (Sync(_), Sync(_)) => {
             if a.addr != b.addr {
-                return true;
+                // a write to a cell that a load-only spin loop reads can wake the loop
+                let wakes = |w: &Pending, l: &Pending| !w.is_read_only() && !w.is_lock_op() && w.addr != 0 && l.watch.contains(&w.addr);
+                return !(wakes(a, b) || wakes(b, a));
             }
             if a.is_lock_op() || b.is_lock_op() {
                 // two read acquisitions / releases of a rwlock commute, everything else does not
@@ -311,6 +315,24 @@ impl Exec {
         let mut enabled = vec![];
         for t in 0..n {
             if let TStatus::Parked(p) = &st.status[t] {
+                let mut p2 = *p;
+                if matches!(p.kind, PKind::Sync(OpKind::Load)) {
+                    // record the cells of a detected load-only cycle (see `enabled`)
+                    let log = &st.load_log[t];
+                    for period in 2..=8usize {
+                        if log.len() < 2 * period {
+                            break;
+                        }
+                        let (a, b) = (&log[log.len() - period..], &log[log.len() - 2 * period..log.len() - period]);
+                        if a.iter().zip(b.iter()).all(|(x, y)| x.0 == y.0 && x.1 == y.1) && a[0].0 == p.addr {
+                            for (i, e) in a.iter().enumerate() {
+                                p2.watch[i] = e.0;
+                            }
+                            break;
+                        }
+                    }
+                }
+                let p = &p2;
                 pend[t] = Some(*p);
                 if Self::enabled(st, t, p) {
                     enabled.push(t);
